@@ -198,6 +198,24 @@ def run(chk, repo, tier):
                                 if ba is not None and ba[0] == 'idx' and ba[2] == key:
                                     okg = key + order == nf.index(nf.attr(gain, 'shape'), C(0))
                                     det = f'cube[{fmt(key)}] = cube[{fmt(key)}]**{fmt(order)}'
+            if not okg:
+                # `plane **= exponent` on row views handed out by zip(cube[...], exponents[...])
+                for lp in p.state.loops:
+                    for bs in lp['states']:
+                        for e in bs.events[lp['n_pre_events']:]:
+                            if not (e.kind == 'write' and e.data.get('how') == 'augassign' and e.data.get('op') == 'pow'):
+                                continue
+                            ta = e.target.single_atom() if isinstance(e.target, Poly) else None
+                            order = e.data.get('value')
+                            oa = order.single_atom() if isinstance(order, Poly) else None
+                            if ta is None or ta[0] != 'idx' or not isinstance(ta[2], Poly) or oa is None:
+                                continue
+                            key = ta[2]
+                            if oa[0] == 'idx' and is_app(oa[1], 'arange') and len(oa[1][2]) == 3 and isinstance(oa[2], Poly) \
+                                    and all(isinstance(x, Poly) for x in oa[1][2]):
+                                order = oa[1][2][0] + oa[2] * oa[1][2][2]          # arange(a, b, c)[k] = a + k*c
+                            okg = key + order == nf.index(nf.attr(gain, 'shape'), C(0))
+                            det = f'cube[{fmt(key)[:40]}] **= {fmt(order)[:80]}'
             chk.ob('C16-g', 'N-identity', fa.key, 'row d of the power cube gets exponent model_order - d', okg, det, fa.loc())
     # C16-h
     cap = S('saturation_capacity')
